@@ -168,6 +168,7 @@ def gen_plan(seed, tier):
     if cfg["recv_mode"] == "dribble":
       cfg["recv_mode"] = "choose"
   cfg["names"] = "digits" if Rng(mix(seed, "names")).chance(0.25) else "eth"
+  cfg["no_barrier"] = Rng(mix(seed, "nobarrier")).chance(0.25)
   return {"prop": PROP, "seed": seed, "cfg": cfg, "steps": steps}
 
 
@@ -297,11 +298,18 @@ def _drive(sim, plan, known, hit):
       # notified before it is superseded, what comes after it applies
       ports0 = [_port(no, again["name_v"]) for no in again["ports"]]
       early = early[min(again["at"], len(early)):]
+    end = W.enc_barrier_reply(br[0]["xid"])
+    if cfg.get("no_barrier"):
+      # a switch without barriers: it answers the request with
+      # BAD_REQUEST / BAD_TYPE, which ends the handshake just the same
+      end = W.enc_error(br[0]["xid"], W.ET_BAD_REQUEST, W.BRC_BAD_TYPE,
+                        W.enc_barrier_request(br[0]["xid"]))
+      sim.probes["handshake_ended_by_error"] += 1
     if glue:
-      cork[0] = [W.enc_barrier_reply(br[0]["xid"])]
+      cork[0] = [end]
       sim.probes["glued_to_handshake_end"] += 1
     else:
-      peer.send(W.enc_barrier_reply(br[0]["xid"]))
+      peer.send(end)
       sim.drain()
       peer.take()
 
